@@ -218,7 +218,9 @@ def reset_reuse(ctx, i):
         for v in ea['vars']:
             sa_, sb_ = ea['vars'][v], eb['vars'].get(v, [])
             sc = max([abs(x) for x in sa_ if math.isfinite(x)] or [0.0])
-            if len(sb_) != len(sa_) or any(not (x == y or abs(x - y) <= 1e-9 * max(abs(x), abs(y)) + 1e-9 * sc or (x != x and y != y)) for x, y in zip(sa_, sb_)):
+            sq_ = v == 'contact stress'          # square root of the force: compared in the squares next to zero (appendix A24)
+            if len(sb_) != len(sa_) or any(not (x == y or abs(x - y) <= 1e-9 * max(abs(x), abs(y)) + 1e-9 * sc or (x != x and y != y)
+                                                or (sq_ and abs(x * x - y * y) <= 1e-9 * sc * sc)) for x, y in zip(sa_, sb_)):
                 ctx.violation('C16:rerun-history-differs', dict(wit, element=ea['name'], variable=v), case)
                 return
     ctx.count('early_stops')
